@@ -4,7 +4,8 @@
 //! MATCH / UNWIND / WITH / CALL / CREATE / MERGE / RETURN / DDL; keyword case; separators
 //! space, tab, newline, CRLF, block and line comments; leading/trailing trivia; clause
 //! pipelines `<reads> <write> WITH .. <read tail | write [WITH .. read tail]>`; an optional
-//! EXPLAIN / PROFILE prefix on every shape).  For each
+//! EXPLAIN / PROFILE prefix on every shape; procedure calls -- the writing solver `or.solve` and
+//! reading algorithms -- with the name spelled in every namespace x mixed case).  For each
 //! probe three fresh twins are built from the same setup history and the statement is sent
 //! (1) to the RESP command handler (`GRAPH.QUERY`), (2) to the shipped axum router
 //! (`POST /api/query`), (3) to the embedded engine: parse, plan, and the plan's `is_write`
@@ -16,8 +17,11 @@
 //! Oracle: same outcome class (rows / refusal) as the engine, same columns, same bag of
 //! rows (scalar cells by value, entities by kind), same post-dump; and a request that was
 //! routed as a read leaves dump and index/constraint lists unchanged.
+//! For calls of the (randomised) solver the cells of its report row and the value of the solved
+//! property are masked in all twins, and the engine twin falls back to the mutating executor when
+//! the read executor refuses (a CALL plan never carries `is_write`).
 
-use super::c24::{recase, PREFIXES, READ_TAILS, SEPS, WRITES};
+use super::c24::{push_pipeline_tail, recase, respell_call, PREFIXES, READ_TAILS, SEPS, WRITES};
 use crate::kit::core::*;
 use crate::kit::dump::dump;
 use crate::kit::exec::Tasks;
@@ -56,23 +60,6 @@ const LEADING_WRITES: &[(&str, &str, &[&str])] = &[
     ("unwind", "merge", &["UNWIND [1, 2] AS x", "MERGE (n:Q {k: x})"]),
 ];
 
-/// Clause pipelines (a write clause followed by WITH): the WITH that follows the write ...
-const WITHS_N: &[&str] = &["WITH n", "WITH n", "WITH n, 1 AS one", "WITH DISTINCT n", "WITH n WHERE n.k >= 0", "WITH n AS n, 1 AS one"];
-const WITHS_ANY: &[&str] = &["WITH 1 AS one", "WITH 1 AS one, 2 AS two"];
-/// ... and the read-only tails after it (`n` carried over / only `one` carried over).
-const PIPE_TAILS_N: &[&[&str]] = &[
-    &["RETURN n.k AS k"],
-    &["RETURN n"],
-    &["RETURN count(*) AS c"],
-    &["RETURN n.z AS z"],
-    &["RETURN n.k AS k ORDER BY k LIMIT 2"],
-    &["MATCH (n)-[:T]->(m)", "RETURN m.k AS k"],
-    &["OPTIONAL MATCH (n)-[:T]->(m)", "RETURN n.k AS a, m.k AS b"],
-    &["UNWIND [1, 2] AS x", "RETURN n.k AS k, x"],
-    &["MATCH (m:Q)", "RETURN count(*) AS c"],
-];
-const PIPE_TAILS_ANY: &[&[&str]] = &[&["RETURN one"], &["RETURN count(*) AS c"], &["MATCH (m:P)", "RETURN m.k AS k"]];
-
 /// Diagnostic prefixes: none, EXPLAIN (describe only), PROFILE (execute and report).
 const DIAG: &[&str] = &["", "EXPLAIN", "PROFILE"];
 
@@ -99,60 +86,17 @@ const LEAD_TRIVIA: &[&str] = &["", "", "", " ", "\n", "\t", "  \n  ", "// find t
 const TAIL_TRIVIA: &[&str] = &["", "", "", ";", " ", "\n", " ;\n", " // done"];
 const RETURNS: &[&str] = &["", "RETURN count(*) AS c", "RETURN 1 AS one", "RETURN n", "RETURN n.k AS k"];
 
-/// A data-write clause (no DDL, no procedure) usable where `n` is bound or not.
-fn pick_data_write(r: &mut Rng, binds_n: bool) -> usize {
-    let mut wi = r.usize_below(WRITES.len());
-    for _ in 0..8 {
-        let c = WRITES[wi].0;
-        if c != "ddl" && c != "procedure" && (!WRITES[wi].2 || binds_n) {
-            return wi;
-        }
-        wi = r.usize_below(WRITES.len());
-    }
-    9 // CREATE (:Q {k: 7})
-}
-
-/// Continue a statement whose last clause is a write (class `w1`) as a clause pipeline:
-/// `WITH ..` + a read tail (every write sits before the last WITH), or + a second write
-/// [+ RETURN] (writes on both sides), or + a second write + `WITH ..` + a read tail.
-/// Returns the write class of the whole statement.
-fn push_pipeline_tail(r: &mut Rng, clauses: &mut Vec<String>, w1: &str, binds_n: bool) -> String {
-    fn push_with(r: &mut Rng, clauses: &mut Vec<String>, carry_n: bool) {
-        let w = if carry_n { WITHS_N[r.usize_below(WITHS_N.len())] } else { WITHS_ANY[r.usize_below(WITHS_ANY.len())] };
-        clauses.push(w.to_string());
-    }
-    fn push_read_tail(r: &mut Rng, clauses: &mut Vec<String>, carry_n: bool) {
-        let t = if carry_n { PIPE_TAILS_N[r.usize_below(PIPE_TAILS_N.len())] } else { PIPE_TAILS_ANY[r.usize_below(PIPE_TAILS_ANY.len())] };
-        clauses.extend(t.iter().map(|c| c.to_string()));
-    }
-    // sometimes the projection drops `n` although it is bound
-    let carry_n = binds_n && !r.chance(1, 6);
-    push_with(r, clauses, carry_n);
-    match r.weighted(&[5, 3, 2]) {
-        0 => {
-            push_read_tail(r, clauses, carry_n);
-            format!("{w1}_with_read")
-        }
-        k => {
-            let wi = pick_data_write(r, carry_n);
-            clauses.push(WRITES[wi].1.to_string());
-            if k == 1 {
-                let mut ret = RETURNS[r.usize_below(RETURNS.len())];
-                if !carry_n && (ret == "RETURN n" || ret.starts_with("RETURN n.k")) {
-                    ret = "RETURN 1 AS one";
-                }
-                if !ret.is_empty() {
-                    clauses.push(ret.to_string());
-                }
-                format!("{w1}_with_{}", WRITES[wi].0)
-            } else {
-                push_with(r, clauses, carry_n);
-                push_read_tail(r, clauses, carry_n);
-                format!("{w1}_with_{}_with_read", WRITES[wi].0)
-            }
-        }
-    }
-}
+/// Procedure calls: (write class, clause).  The name is re-spelled per probe (namespace x case style).
+/// The solver writes its solution to property `z` of the :P nodes; the other two only read.
+const PROC_CALLS: &[(&str, &str)] = &[
+    ("procedure", "CALL algo.or.solve({label: 'P', property: 'z', max_iterations: 2, population_size: 4})"),
+    ("procedure", "CALL algo.or.solve({label: 'P', property: 'z', algorithm: 'TLBO', max_iterations: 2, population_size: 4})"),
+    ("procedure", "CALL algo.or.solve({label: 'P', property: 'z', max_iterations: 2, population_size: 4})"),
+    ("read", "CALL algo.wcc('P', 'T') YIELD node, componentId"),
+    ("read", "CALL algo.pageRank('P', 'T') YIELD node, score"),
+];
+/// Property the solver is pointed at: its value is a random draw, so it is masked in every twin.
+const SOLVED_PROP: &str = "z";
 
 fn gen_probe(r: &mut Rng) -> Value {
     let sep = r.weighted(&[8, 5, 2, 1, 1, 1, 1]) as u64;
@@ -160,7 +104,7 @@ fn gen_probe(r: &mut Rng) -> Value {
     let lead = r.below(LEAD_TRIVIA.len() as u64);
     let tail = r.below(TAIL_TRIVIA.len() as u64);
     let mut diag = r.weighted(&[7, 1, 2]) as u64;
-    let (lclass, wclass, clauses): (String, String, Vec<String>) = match r.weighted(&[12, 2, 4, 3]) {
+    let (lclass, wclass, clauses): (String, String, Vec<String>) = match r.weighted(&[12, 2, 4, 3, 2]) {
         0 => {
             let pi = r.usize_below(PREFIXES.len());
             let (pclass, pclauses, binds_n) = PREFIXES[pi];
@@ -225,6 +169,33 @@ fn gen_probe(r: &mut Rng) -> Value {
                 }
             }
             (l.to_string(), wclass, cl)
+        }
+        4 => {
+            // a procedure call, its name spelled in a PRNG-chosen namespace x case style; alone, or behind a read prefix
+            let (w, call) = PROC_CALLS[r.usize_below(PROC_CALLS.len())];
+            let (call, spelling) = respell_call(r, call);
+            let mut clauses: Vec<String> = Vec::new();
+            let mut lclass = "call_proc";
+            if r.chance(1, 5) {
+                let (pclass, pclauses, _) = PREFIXES[r.usize_below(PREFIXES.len())];
+                if pclass != "none" && pclass != "return_union" {
+                    clauses = pclauses.iter().map(|s| s.to_string()).collect();
+                    lclass = pclass;
+                }
+            }
+            clauses.push(call);
+            if w == "read" {
+                clauses.push(["RETURN count(*) AS c", "RETURN 1 AS one"][r.usize_below(2)].to_string());
+            } else if r.chance(1, 4) {
+                clauses.push("RETURN 1 AS one".to_string());
+            }
+            let wclass = match (w, spelling) {
+                ("procedure", "plain") => "procedure".to_string(),
+                ("procedure", sp) => format!("procedure_{sp}"),
+                (_, "plain") => "read".to_string(),
+                (_, sp) => format!("read_procedure_{sp}"),
+            };
+            (lclass.to_string(), wclass, clauses)
         }
         _ => {
             let (l, w, t) = SPECIAL[r.usize_below(SPECIAL.len())];
@@ -381,6 +352,31 @@ struct Observed {
     schema: Vec<String>,
 }
 
+/// `observe` with the value of `SOLVED_PROP` replaced by a marker on every node that carries it
+/// (which nodes carry it is still compared; the value is the randomised solver's draw).
+fn observe_masked(g: &GraphStore, mask_solution: bool) -> Observed {
+    let mut o = observe(g);
+    if mask_solution {
+        let mut d = dump(g);
+        for n in d.nodes.values_mut() {
+            if let Some(v) = n.props.get_mut(SOLVED_PROP) {
+                *v = "<solution>".to_string();
+            }
+        }
+        o.graph = d.canonical();
+    }
+    o
+}
+
+/// The solver's report row (fitness, history, ..) is a function of its random draws: columns and
+/// row count are compared, the cells are not.
+fn mask_solver_report(out: Out, solver: bool) -> Out {
+    match out {
+        Out::Rows { columns, rows } if solver => Out::Rows { columns, rows: rows.iter().map(|_| "<solver report>".to_string()).collect() },
+        other => other,
+    }
+}
+
 fn observe(g: &GraphStore) -> Observed {
     let mut schema: Vec<String> = g.property_index.list_indexes().into_iter().map(|(l, p)| format!("index {}.{}", l.as_str(), p)).collect();
     schema.extend(g.property_index.list_constraints().into_iter().map(|(l, p)| format!("constraint {}.{}", l.as_str(), p)));
@@ -475,7 +471,7 @@ impl Scenario for C23 {
         }
     }
     fn rule(&self) -> &'static str {
-        "a run = 1-6 probe statements; a probe is (a) one of 15 read prefixes (MATCH, OPTIONAL MATCH, MATCH..WITH, UNWIND, WITH, CALL..YIELD, RETURN..UNION ALL, none) + one of 24 write/DDL clauses (3/4) or a read tail (1/4) + optional RETURN, (b) a DDL statement alone, (c) a statement whose first clause writes (CREATE.., CREATE..WITH..MATCH..CREATE, MERGE.. ON CREATE/ON MATCH, UNWIND..CREATE/MERGE), or (d) one of 15 special statements (write keyword inside a string literal, UNION, SHOW, EXPLAIN, SKIP/LIMIT); in 2/5 of the (a)/(c) write statements the write clause is continued as a clause pipeline: WITH (6 forms, carrying n or dropping it) + a read tail (RETURN forms, MATCH/OPTIONAL MATCH/UNWIND..RETURN: every write precedes the last WITH), or + a second write clause [+ RETURN] (writes on both sides of the WITH), or + a second write + WITH + read tail; 3/10 of all probes carry an EXPLAIN (1/10) or PROFILE (2/10) prefix; clauses (and the prefix) joined by one of 7 separators (space, newline, tab, double space, block comment, line comment, CRLF), keywords in one of 4 case styles, with leading trivia (none, space, newline, tab, line comment, block comment, CRLF) and trailing trivia (none, ';', space, newline, line comment). Each probe runs on three fresh twins built from the same 4-statement setup. Non-trivial = the run has a write probe whose leading clause is not CREATE/MERGE or whose text has non-plain case/separator/trivia/prefix. Distinct = hash of the probe texts."
+        "a run = 1-6 probe statements; a probe is (a) one of 15 read prefixes (MATCH, OPTIONAL MATCH, MATCH..WITH, UNWIND, WITH, CALL..YIELD, RETURN..UNION ALL, none) + one of 24 write/DDL clauses (3/4) or a read tail (1/4) + optional RETURN, (b) a DDL statement alone, (c) a statement whose first clause writes (CREATE.., CREATE..WITH..MATCH..CREATE, MERGE.. ON CREATE/ON MATCH, UNWIND..CREATE/MERGE), (d) one of 15 special statements (write keyword inside a string literal, UNION, SHOW, EXPLAIN, SKIP/LIMIT), or (e) a procedure call (the writing solver or.solve, or the reading wcc / pageRank) whose name is spelled with one of 5 namespaces (none, algo., samyama., gds., the unknown Algo.) x 6 case styles (or.solve, Or.Solve, OR.SOLVE, or.Solve, oR.sOLVE, or.solvE), alone or (1/5) behind a read prefix, with or without RETURN; in 2/5 of the (a)/(c) write statements the write clause is continued as a clause pipeline: WITH (6 forms, carrying n or dropping it) + a read tail (RETURN forms, MATCH/OPTIONAL MATCH/UNWIND..RETURN: every write precedes the last WITH), or + a second write clause [+ RETURN] (writes on both sides of the WITH), or + a second write + WITH + read tail; 3/10 of all probes carry an EXPLAIN (1/10) or PROFILE (2/10) prefix; clauses (and the prefix) joined by one of 7 separators (space, newline, tab, double space, block comment, line comment, CRLF), keywords in one of 4 case styles, with leading trivia (none, space, newline, tab, line comment, block comment, CRLF) and trailing trivia (none, ';', space, newline, line comment). Each probe runs on three fresh twins built from the same 4-statement setup. Non-trivial = the run has a write probe whose leading clause is not CREATE/MERGE or whose text has non-plain case/separator/trivia/prefix. Distinct = hash of the probe texts."
     }
     fn real_components(&self) -> Vec<&'static str> {
         vec![
@@ -494,7 +490,8 @@ impl Scenario for C23 {
             "cells are compared by value for integers, strings, booleans and null (the three renderings are lossless for these), by kind for nodes / relationships / paths; floats, lists and maps are not generated in RETURN items",
             "row order is not compared (bag), error texts are not compared",
             "the report of PROFILE <read statement> contains measured times: only its columns and row count are compared; EXPLAIN output is compared verbatim",
-            "write procedures (algo.or.solve) are excluded: the solver is randomised, so twins legitimately differ",
+            "the solver procedure (or.solve) is randomised, so twins legitimately differ in what it computes: for probes that call it the cells of its report row and the value of the solved property are masked in all three twins (columns, row count, which nodes carry the property and everything else are compared)",
+            "the plan of a CALL statement never carries is_write, so for solver-procedure probes 'the engine can execute it' falls back to the mutating executor (the one that runs every statement) when the read executor refuses",
             "no property index exists in the setup history: the ephemeral server of main.rs never runs the indexer, which is outside this property",
         ]
     }
@@ -514,6 +511,9 @@ impl Scenario for C23 {
             "profile_read_ran",
             "explain_of_write_changed_nothing",
             "explain_of_read",
+            "write_procedure_ran",
+            "write_procedure_mixed_case_ran",
+            "read_procedure_ran",
         ]
     }
     fn generate(&self, s: &mut Streams, _run_index: u64, _tier: Tier) -> Case {
@@ -558,10 +558,13 @@ impl Scenario for C23 {
             let explained = diag == "EXPLAIN" || s(ev, "lead") == "explain";
             let lead = if diag.is_empty() { s(ev, "lead").to_string() } else { format!("{}_{}", diag.to_ascii_lowercase(), s(ev, "lead")) };
             let wclass = s(ev, "write").to_string();
+            let solver = wclass.starts_with("procedure");
+            let read_proc = wclass.starts_with("read_procedure");
+            let is_read = wclass == "read" || read_proc;
             let trivia = trivia_class(ev).to_string();
             keys.push(q.clone());
             o.steps += 3;
-            if wclass != "read" && ((lead != "create" && lead != "merge" && lead != "ddl") || trivia != "plain" || u(ev, "case") % 4 != 0 || u(ev, "sep") % 7 != 0) {
+            if !is_read && ((lead != "create" && lead != "merge" && lead != "ddl") || trivia != "plain" || u(ev, "case") % 4 != 0 || u(ev, "sep") % 7 != 0) {
                 o.nontrivial = true;
             }
             // ---- twin 3: the embedded engine decides by its own plan
@@ -581,9 +584,22 @@ impl Scenario for C23 {
                 let (out, w) = match routed {
                     Err(e) => (Out::Refused(e), false),
                     Ok(true) => (engine_out(engine.execute_mut(&q, &mut g, "default").map_err(|e| e.to_string())), true),
-                    Ok(false) => (engine_out(engine.execute(&q, &g).map_err(|e| e.to_string())), false),
+                    Ok(false) => {
+                        let out = engine_out(engine.execute(&q, &g).map_err(|e| e.to_string()));
+                        if solver && matches!(out, Out::Refused(_)) {
+                            // The plan of a CALL never says is_write, whatever the procedure does: for a
+                            // procedure call "the engine can execute it" is decided by the executor that can
+                            // run every statement.  (The refusing read executor left the twin untouched.)
+                            match engine_out(engine.execute_mut(&q, &mut g, "default").map_err(|e| e.to_string())) {
+                                rows @ Out::Rows { .. } => (rows, true),
+                                Out::Refused(_) => (out, false),
+                            }
+                        } else {
+                            (out, false)
+                        }
+                    }
                 };
-                (mask_profile_report(out, profiled), w, observe(&g))
+                (mask_solver_report(mask_profile_report(out, profiled), solver), w, observe_masked(&g, solver))
             };
             match (&eng_out, eng_write) {
                 (Out::Refused(_), _) => o.probe("engine_refused"),
@@ -602,10 +618,18 @@ impl Scenario for C23 {
                 } else if profiled && !eng_write {
                     o.probe("profile_read_ran");
                 }
-                if explained && wclass != "read" && !changed {
+                if explained && !is_read && !changed {
                     o.probe("explain_of_write_changed_nothing");
-                } else if explained && wclass == "read" {
+                } else if explained && is_read {
                     o.probe("explain_of_read");
+                }
+                if solver && eng_write && changed && !explained {
+                    o.probe("write_procedure_ran");
+                    if wclass == "procedure_mixed_case" {
+                        o.probe("write_procedure_mixed_case_ran");
+                    }
+                } else if read_proc || (wclass == "read" && s(ev, "lead") == "call_proc") {
+                    o.probe("read_procedure_ran");
                 }
             }
             // ---- twin 1: RESP, twin 2: HTTP
@@ -619,7 +643,7 @@ impl Scenario for C23 {
                         RespValue::BulkString(Some(q.as_bytes().to_vec())),
                     ]);
                     let (reply, w) = drive(&srv.store, srv.handler.handle_command(&cmd, &srv.store));
-                    (mask_profile_report(resp_out(&reply), profiled), w)
+                    (mask_solver_report(mask_profile_report(resp_out(&reply), profiled), solver), w)
                 } else {
                     use axum::body::Body;
                     use http_body_util::BodyExt;
@@ -632,10 +656,10 @@ impl Scenario for C23 {
                         let bytes = resp.into_body().collect().await.expect("body").to_bytes();
                         (status, serde_json::from_slice::<Value>(&bytes).unwrap_or(Value::Null))
                     });
-                    (mask_profile_report(http_out(status, &body), profiled), w)
+                    (mask_solver_report(mask_profile_report(http_out(status, &body), profiled), solver), w)
                 };
                 o.probe(&format!("{front}_{}", if took_write { "took_write_lock" } else { "routed_read" }));
-                let obs = srv.with_store(observe);
+                let obs = srv.with_store(|g| observe_masked(g, solver));
                 hash_parts.push(format!("{front}:{out:?}:{took_write}"));
                 let mut fail = |clause: &str, detail: String| {
                     o.violate(Violation::new(
